@@ -169,6 +169,12 @@ func (a *PeerActor) listen() {
 		a.mu.Unlock()
 		a.applyConnFaults(c)
 		p := a.newPeer()
+		select {
+		case <-a.stop:
+			c.Close()
+			return
+		default:
+		}
 		go func() {
 			simrt.Enter(a.Host)
 			p.Serve(c)
@@ -199,6 +205,12 @@ func (a *PeerActor) dialLoop() {
 				a.applyConnFaults(c)
 				p := a.newPeer()
 				p.Incoming = false
+				select {
+				case <-a.stop: // stopped while the dial was in flight
+					c.Close()
+					return
+				default:
+				}
 				p.Run(c)
 			}
 		}
